@@ -23,7 +23,7 @@ RangeVals(lo, hi) == {I(n) : n \in lo..hi}
 
 \* containers: elements good (convertible to every integer target), bad kind, bad range
 G == I(1)  BK == St("x")  BR == VInt(ZPow2(100))
-Elems == {G, BK, BR, I(-1), I(300), VStr([i \in 1..63 |-> 97] \o <<233, 98>>)}
+Elems == {G, BK, BR, I(-1), I(300), VStr([i \in 1..63 |-> 97] \o <<233, 98>>), VNone}      \* (a None element: an entry like any other)
 VecSources == {VVec(<<>>)} \cup {VVec(<<a>>) : a \in Elems} \cup {VVec(<<a, b>>) : a, b \in Elems}
               \cup {VVec(<<a, b, d>>) : a, b, d \in {G, BK, BR}}
 MapSources == {VMap(<<>>)} \cup {VMap(<< <<S("a"), a>> >>) : a \in Elems} \cup {VMap(<< <<S("a"), a>>, <<S("b"), b>> >>) : a, b \in Elems}
